@@ -305,7 +305,11 @@ func (r *Result) Finish(c *Ctx, verifDir string, seed int, wall float64, meta Pr
 		for _, e := range r.Errors {
 			fmt.Printf("CHECKER-ERROR property=%s %s\n", r.Prop, e)
 		}
-		return 2
+		// a rule that could not run (floor, anchor) does not take back what another rule decided: with a violation
+		// at hand the run reports it; without one the run is a checker error
+		if nViol == 0 {
+			return 2
+		}
 	}
 	os.Remove(violPath)
 	if nViol > 0 {
